@@ -185,6 +185,7 @@ func read(in io.Reader, metadata *raft.SnapshotMeta, snap io.Writer) error {
 
 	// Look through the archive for the pieces we care about.
 	var shaBuffer bytes.Buffer
+	seen := make(map[string]struct{})
 	for {
 		hdr, err := archive.Next()
 		if err == io.EOF {
@@ -193,6 +194,7 @@ func read(in io.Reader, metadata *raft.SnapshotMeta, snap io.Writer) error {
 		if err != nil {
 			return fmt.Errorf("failed reading snapshot: %v", err)
 		}
+		seen[hdr.Name] = struct{}{}
 
 		switch hdr.Name {
 		case "meta.json":
@@ -230,6 +232,15 @@ func read(in io.Reader, metadata *raft.SnapshotMeta, snap io.Writer) error {
 	// Verify all the hashes.
 	if err := hl.DecodeAndVerify(&shaBuffer); err != nil {
 		return fmt.Errorf("failed checking integrity of snapshot: %v", err)
+	}
+
+	// Every member must be present. The hash of a member that never showed up
+	// is the hash of no data, which is indistinguishable from a genuinely empty
+	// member, so the hash check alone does not catch a missing one.
+	for _, name := range []string{"meta.json", "state.bin", "SHA256SUMS"} {
+		if _, ok := seen[name]; !ok {
+			return fmt.Errorf("failed checking integrity of snapshot: file missing for %q", name)
+		}
 	}
 
 	return nil
